@@ -151,6 +151,9 @@ type c12Flow struct {
 	cand    []c12Deref // dereferences reached (judged when the flow is complete)
 	candAt  map[ssa.Instruction]bool
 	derefs  []c12Deref // … that are not behind a nil test
+	// ownCallOnly: the taint stands for "the value this call of the function received" (tested-parameter rule): it is followed
+	// down into callees but not back to the callers through a return (they know their own argument better).
+	ownCallOnly bool
 }
 
 func newC12Flow(w *World, sites map[*ssa.Function][]ssa.CallInstruction) *c12Flow {
@@ -363,6 +366,9 @@ func (fl *c12Flow) run() {
 				}
 				fl.taintVar(al, fl.via[v])
 			case *ssa.Return:
+				if fl.ownCallOnly {
+					continue
+				}
 				for k, res := range x.Results {
 					if res != v || fl.nonNilAt(v, x) {
 						continue
@@ -385,6 +391,12 @@ func (fl *c12Flow) run() {
 					}
 				}
 			case ssa.CallInstruction:
+				if com := x.Common(); com.IsInvoke() {
+					if com.Value == v {
+						fl.deref(x, v, desc(v)+"."+com.Method.Name()+"(…)") // a method call on a nil interface panics
+					}
+					continue
+				}
 				g := staticCallee(x)
 				if g == nil || g.Blocks == nil || !w.IsProductFn(g) {
 					continue // what functions outside the module do with the pointer is not followed
@@ -571,4 +583,203 @@ func c12JudgeSources(c *Ctx, sites map[*ssa.Function][]ssa.CallInstruction, pref
 		}
 		c.Bad(key, rule, w.InstrPos(fl.derefs[0].at), strings.Join(parts, "; "))
 	}
+}
+
+// ---- parameters the function itself tests against nil ------------------------------------------------
+//
+// Rule (one obligation per such parameter; key nilable/tested-parameter/<function>#k): a module function that compares one
+// of its pointer- or interface-typed parameters (receiver included) with nil says by that very test that nil is a value it
+// expects to be called with — a result a Signer / plugin / repository implementation handed back, a verifier built without
+// a component, a document member that was absent. Then every dereference that parameter value reaches — field selection
+// through it, *p load or store, a method call on the interface, and the same in every module function the value is passed
+// on to — is reachable only through the non-nil edge of a nil test of that value ("contradiction rule": one path tests, no
+// path may dereference untested).
+//
+// Why it is a necessary condition of C12: these tests are the library's only protection where a nil arrives from outside
+// its control (SignOCI hands the *SignerInfo a caller-supplied Signer returned straight to the annotation generator; a
+// verification plugin looked up by name may be absent); a nil that gets past them is a nil-pointer panic inside a public
+// entry point instead of an error.
+//
+// Equivalent shapes accepted (decided on SSA values, must-pass facts and the call tree):
+//   - `if p == nil {return}` before the use, `if p != nil {use}`, `if p == nil || p.F …`, `if nil == p`, a switch case,
+//     a nested `if`, the test in a module predicate / validating helper whose answer implies it (gate composition);
+//   - `if p == nil { p = default }` — the phi that joins a fresh value with the tested one is not nil;
+//   - the test here and the dereference in a helper (nothing flows through a call whose argument is known non-nil at the
+//     call), or a helper that tests its own parameter;
+//   - a parameter moved to a variable cell because a closure captures it (reads of the cell are followed, also inside the
+//     closure, exactly as for decoded pointers);
+//   - a parameter that is tested but never dereferenced (compared, stored, handed to functions outside the module);
+//   - for an unexported function whose call sites are all known (never used as a value, not reachable through an interface,
+//     not started by go/defer): every call site passes a value known non-nil at the call — the function's own test is then
+//     redundant and what it guards cannot happen. A test in a caller does not count for anything that can be entered from
+//     elsewhere (exported functions and methods, function values, closures).
+//
+// Not followed: the value boxed into another interface, stored into a field / container and read back, handed back to the
+// callers through a return.
+
+// c12CallerTestsCount: see the last accepted shape above. Set to false to demand the function's own test everywhere.
+const c12CallerTestsCount = true
+
+// c12NilTestedParams: the parameters of fn that fn (or a function literal inside it that captured the parameter) compares with nil.
+func c12NilTestedParams(fn *ssa.Function) map[*ssa.Parameter]bool {
+	nilable := func(t types.Type) bool {
+		switch types.Unalias(t).Underlying().(type) {
+		case *types.Pointer, *types.Interface:
+			return true
+		}
+		return false
+	}
+	cand := false
+	for _, p := range fn.Params {
+		if nilable(p.Type()) {
+			cand = true
+		}
+	}
+	if !cand {
+		return nil
+	}
+	// variable cells that hold a parameter (captured / address-taken parameters), and the free variables bound to them
+	cell := map[ssa.Value]*ssa.Parameter{}
+	for _, b := range fn.Blocks {
+		for _, in := range b.Instrs {
+			if st, ok := in.(*ssa.Store); ok {
+				if p, ok := st.Val.(*ssa.Parameter); ok {
+					if al, ok := st.Addr.(*ssa.Alloc); ok && cell[al] == nil {
+						cell[al] = p
+					}
+				}
+			}
+		}
+	}
+	fns := []*ssa.Function{fn}
+	if len(cell) > 0 {
+		var bind func(f *ssa.Function)
+		bind = func(f *ssa.Function) {
+			for _, b := range f.Blocks {
+				for _, in := range b.Instrs {
+					mc, ok := in.(*ssa.MakeClosure)
+					if !ok {
+						continue
+					}
+					g, ok := mc.Fn.(*ssa.Function)
+					if !ok {
+						continue
+					}
+					hit := false
+					for k, bnd := range mc.Bindings {
+						if p := cell[bnd]; p != nil && k < len(g.FreeVars) {
+							cell[g.FreeVars[k]] = p
+							hit = true
+						}
+					}
+					if hit {
+						fns = append(fns, g)
+						bind(g)
+					}
+				}
+			}
+		}
+		bind(fn)
+	}
+	var resolve func(v ssa.Value) *ssa.Parameter
+	resolve = func(v ssa.Value) *ssa.Parameter {
+		switch x := v.(type) {
+		case *ssa.Parameter:
+			if x.Parent() == fn {
+				return x
+			}
+		case *ssa.ChangeInterface:
+			return resolve(x.X)
+		case *ssa.ChangeType:
+			return resolve(x.X)
+		case *ssa.UnOp:
+			if x.Op == token.MUL {
+				return cell[x.X]
+			}
+		}
+		return nil
+	}
+	out := map[*ssa.Parameter]bool{}
+	for _, f := range fns {
+		for _, b := range f.Blocks {
+			for _, in := range b.Instrs {
+				bo, ok := in.(*ssa.BinOp)
+				if !ok || (bo.Op != token.EQL && bo.Op != token.NEQ) {
+					continue
+				}
+				var o ssa.Value
+				if isNilConst(bo.Y) {
+					o = bo.X
+				} else if isNilConst(bo.X) {
+					o = bo.Y
+				} else {
+					continue
+				}
+				if p := resolve(o); p != nil && nilable(p.Type()) {
+					out[p] = true
+				}
+			}
+		}
+	}
+	return out
+}
+
+func c12TestedParams(c *Ctx) {
+	w := c.W
+	sites := c12CallSites(w)
+	rule := "inventory: a module function that compares a pointer / interface parameter with nil expects to be called with nil; every dereference that parameter value reaches (field selection, *p, method call on the interface — in the function or in the module functions the value is passed on to) lies behind the non-nil edge of a nil test of it (a re-assigned default is followed through the phi; for an unexported function with a closed list of call sites, call sites that all pass a known non-nil value are accepted instead)"
+	n := 0
+	for _, fn := range w.Funcs {
+		if fn.Synthetic != "" {
+			continue
+		}
+		tested := c12NilTestedParams(fn)
+		if len(tested) == 0 {
+			continue
+		}
+		k := 0
+		for idx, p := range fn.Params {
+			if !tested[p] {
+				continue
+			}
+			k++
+			n++
+			c.Evals++
+			key := fmt.Sprintf("nilable/tested-parameter/%s#%d", fnName(fn), k)
+			fl := newC12Flow(w, sites)
+			fl.ownCallOnly = true
+			fl.taint(p, "parameter "+desc(p)+" of "+fnName(fn)+", which the function compares with nil")
+			fl.run()
+			fl.judge()
+			if len(fl.derefs) == 0 {
+				c.OK(key, rule, w.FnPos(fn))
+				continue
+			}
+			if c12CallerTestsCount {
+				if cs, closed := c05CallSites(w, fn); closed && len(cs) > 0 {
+					all := true
+					for _, call := range cs {
+						if idx >= len(call.Call.Args) || !c12KnownNonNil(w, call.Call.Args[idx], call) {
+							all = false
+						}
+					}
+					if all {
+						c.OK(key, rule+" (every call site of this unexported function passes a value known non-nil at the call)", w.FnPos(fn))
+						continue
+					}
+				}
+			}
+			var parts []string
+			for i, d := range fl.derefs {
+				if i == 3 {
+					parts = append(parts, fmt.Sprintf("… and %d more", len(fl.derefs)-3))
+					break
+				}
+				parts = append(parts, fmt.Sprintf("%s in %s (%s) dereferences the %s without passing the non-nil edge of a nil test of it; guards: %s", d.expr, fnName(d.at.Parent()), w.InstrPos(d.at), fl.via[d.val], d.guards))
+			}
+			c.Bad(key, rule, w.InstrPos(fl.derefs[0].at), strings.Join(parts, "; "))
+		}
+	}
+	c.Extra["nil_tested_parameters"] = n
+	c.MinCount("nilable/tested-parameter", 14, "parameters a module function compares with nil (18 on the reference tree: repository / verifier / signer arguments of the public entry points, the signer info of the annotation generator and of SigningTime, the verification plugin of the plugin runner, …)")
 }
